@@ -69,11 +69,15 @@ def dbStr : DbCond → String
   | .and a b => s!"{dbStr a},{dbStr b},&"
   | .or a b => s!"{dbStr a},{dbStr b},|"
 
-/-- searchable columns: `_` or `t.c;t.c` -/
-def parseCols (s : String) : Option (List ColRef) :=
+/-- configured columns: `_` or `t.c;t.c:t;t.c:e` – kind `s` (default) searchable, `t` consistently
+tokenized, `e` encrypted only -/
+def parseCols (s : String) : Option (List (ColRef × String)) :=
   if s = "_" then some [] else (s.splitOn ";").mapM fun p =>
-    match p.splitOn "." with
-    | [t, c] => parseCol t c
+    let (tc, kind) := match p.splitOn ":" with
+      | [tc, k] => (tc, k)
+      | _ => (p, "s")
+    match tc.splitOn "." with
+    | [t, c] => do pure ((← parseCol t c), kind)
     | _ => none
 
 /-- rows: `_` or rows joined by `;`, each `t.c:hex|t.c:hex` -/
@@ -158,7 +162,7 @@ def handle (op : String) (args : List String) : Option String :=
   | "query", [d, hk, pub, privs, sym, syms, cols, cond, params, rows, _variant] => do
       let sc ← parseCols cols
       let x : QCtx := { c := C, d := ← parseDialect d, hkey := ← parseOpt hk, kv := ← parseKV pub privs sym syms,
-                        searchable := fun c => sc.contains c }
+                        searchable := fun c => sc.contains (c, "s"), tokenized := fun c => sc.contains (c, "t") }
       let cnd ← parseCond cond
       let ps ← parseList params
       let rs ← parseRows rows
@@ -170,6 +174,12 @@ def handle (op : String) (args : List String) : Option String :=
           | .err => s!"err-bind {dbStr dc}"
           | .panic => "panic"
           | .ok ps' => s!"ok {dbStr dc} {listStr ps'} {bits (rs.map fun r => evalDb ps' r dc)}")
+  -- the pinned tree's OnBind (before the repair): regression witnesses only, model side → bound values
+  | "legacy.bind", [d, hk, pub, privs, sym, syms, cols, cond, params] => do
+      let sc ← parseCols cols
+      let x : QCtx := { c := C, d := ← parseDialect d, hkey := ← parseOpt hk, kv := ← parseKV pub privs sym syms,
+                        searchable := fun c => sc.contains (c, "s"), tokenized := fun c => sc.contains (c, "t") }
+      pure ((legacyRewriteBind x (← parseCond cond) (← parseList params)).render listStr)
   -- plain cond params rows: the specification (rows hold plaintexts)
   | "spec", [cond, params, rows] => do
       let cnd ← parseCond cond
